@@ -74,7 +74,7 @@ def make_range(B, order=None):
     return Agg('HandRange', [PyObj('map', slots=[[mirx.cp(k), v, p] for k, v, p in sl])])
 
 
-def run_fmt(M, B, order=None, record_tokens=True):
+def run_fmt(M, B, order=None, record_tokens=True, lazy=True):
     """run Display::fmt; returns list of dict(pc, buf, tokens | panic)"""
     f_fmt = fn(M, '<HandRange as std::fmt::Display>::fmt')
     f_tok = fn(M, '<HandRangeToken as std::fmt::Display>::fmt')
@@ -84,14 +84,11 @@ def run_fmt(M, B, order=None, record_tokens=True):
     st.toklog = []
     fcell = Cell('fmt', PyObj('fmt', buf=[], toklog=[]))
     st.frames = [Frame(f_fmt, [Ref(Cell('hr', hr), []), Ref(fcell, [])], None, None)]
-    res = M.run(st)
-    out = []
-    for r in res:
+    for r in (M.run_iter(st) if lazy else M.run(st)):
         if is_panic(r):
-            out.append(dict(pc=r.pc, panic=r.result[1]))
+            yield dict(pc=r.pc, panic=r.result[1])
         else:
-            out.append(dict(pc=r.pc, buf=r.fmtbuf, panic=None))
-    return out
+            yield dict(pc=r.pc, buf=r.fmtbuf, panic=None)
 
 
 def parse_back(M, pc, buf):
@@ -189,8 +186,8 @@ def worker(args):
         M.qtimeout = 300
         row, offset, w = tuple(cfg['row']), cfg['offset'], cfg['w']
         B = build(M, row, offset, w, partial=cfg.get('partial', False), strays=cfg.get('strays', ()), weights=cfg.get('weights', 'no-negzero'))
-        paths = run_fmt(M, B)
-        out['fmt_paths'] = len(paths)
+        paths_iter = run_fmt(M, B)
+        paths = []
 
         stop_file = os.path.join(os.path.dirname(mir), 'stop-on-first-counterexample')
 
@@ -205,7 +202,9 @@ def worker(args):
             if extra:
                 d['detail'] = extra
             out['bad'].append(d)
-        for P in paths:
+        for P in paths_iter:
+            paths.append(P)
+            out['fmt_paths'] = len(paths)
             if os.path.exists(stop_file):
                 out['stopped_early'] = True
                 break
@@ -315,7 +314,7 @@ def worker(args):
         if 'c17' in mode and cfg.get('reorder'):
             # (c) history independence: same contents under a different slot order of the map model
             order = list(reversed(range(len(B['slots']))))
-            paths2 = run_fmt(M, B, order)
+            paths2 = list(run_fmt(M, B, order))
             out['fmt_paths'] += len(paths2)
             for P in paths:
                 for Q in paths2:
